@@ -331,10 +331,8 @@ class GroupBase:
             if all(item == [default] for item in idx_cross_mdls):
                 out_pre.append([default])
                 continue
-            for item in idx_cross_mdls:
-                if item != [default]:
-                    out_pre.append(item)
-                    break
+            # collect the matches from every model of the group, in model order
+            out_pre.append([ii for item in idx_cross_mdls if item != [default] for ii in item])
 
         if allow_all:
             out = out_pre
